@@ -11,7 +11,7 @@ use std::sync::{Arc, Mutex};
 
 pub const PAGE: u64 = 1 << 16;
 
-#[derive(Default)]
+#[derive(Default, Clone)]
 pub struct Store {
     pages: BTreeMap<u64, Box<[u8]>>,
     pub len: u64,
